@@ -3,7 +3,7 @@
 name=$1; script=$2
 wt=/tmp/wt_c19_$name
 git -C /repo worktree remove --force $wt 2>/dev/null; rm -rf $wt
-git -C /repo worktree add -q $wt HEAD || exit 9
+git -C /repo worktree add -q $wt ${BASE:-HEAD} || exit 9
 (cd $wt && python3 $script) || { echo "EDIT FAILED"; exit 8; }
 (cd $wt && git diff --stat | tail -1)
 cd /verif && VERIF_REPO=$wt timeout 1500 ./check C19 2>&1 | grep -v "^\[C19 .*done\|server up" | tail -${3:-8}
